@@ -38,6 +38,7 @@ type EntryCfg struct {
 }
 
 type CheckCfg struct {
+	Parts     []string          `json:"parts"` // a check made of several configs (different packages): each part is run as its own process, verdicts and evidence are merged
 	Property  string            `json:"property"`
 	Module    string            `json:"module"`  // "core" | "server"
 	Package   string            `json:"package"` // e.g. "./util"
@@ -52,6 +53,7 @@ type CheckCfg struct {
 	CallHooks map[string]HookCfg `json:"call_hooks"` // harness functions run before / after a real function (same parameters, receiver first, no results)
 	SymbolicOnlyRedirects []string `json:"symbolic_only_redirects"` // redirects NOT applied in native replay (the harness handles the real function natively)
 	FollowFuncs []string        `json:"follow_funcs"` // function-key prefixes that are interpreted although their package is a sink (e.g. the task gauges behind the prometheus collectors)
+	FrozenClock bool            `json:"frozen_clock"` // time.Now is constant: timers never fire (natively the scenario finishes long before any timer interval)
 	RealContext bool            `json:"real_context"` // interpret context.WithCancel from the standard library source (cancellation observable) instead of the no-op model
 	ZeroStubs []string          `json:"zero_stubs"` // functions replaced by "return zero values" (listed in the evidence)
 	Assumptions []string        `json:"assumptions"`
